@@ -77,6 +77,39 @@ def dcop_yaml(case):
     return "\n".join(lines) + "\n"
 
 
+class DomainMismatch(Exception):
+    """a variable built from a raw iterable domain does not hold the generated values"""
+    def __init__(self, observed):
+        Exception.__init__(self, "domain mismatch")
+        self.observed = observed
+
+
+def raw_domain(form, dom):
+    """the generated list `dom` in the form the Variable constructor receives it (its docstring: Domain or Iterable)"""
+    dom = list(dom)
+    if form == "gen":
+        return (x for x in dom)                               # one-shot
+    if form == "iter":
+        return iter(dom)                                      # one-shot
+    if form == "map":                                         # one-shot, values parsed from text
+        if all(type(x) is int for x in dom):
+            return map(int, [str(x) for x in dom])
+        return map(lambda x: x, dom)
+    if form == "tuple":
+        return tuple(dom)
+    if form == "range":
+        step = (dom[1] - dom[0]) if len(dom) > 1 else 1
+        return range(dom[0], dom[0] + step * len(dom), step)
+    if form == "str":
+        return "".join(dom)
+    raise ValueError("unknown domain form %r" % (form,))
+
+
+def same_values(a, b):
+    a, b = list(a), list(b)
+    return len(a) == len(b) and all(type(x) is type(y) and _eq(x, y) for x, y in zip(a, b))
+
+
 def build_dcop(case):
     """case["via"]: "api" (default) | "costfunc" (VariableWithCostFunc for variables with costs) | "yaml"
     (the DCOP goes through yamldcop.load_dcop).  A ValueError of the construction is the caller's business."""
@@ -90,8 +123,12 @@ def build_dcop(case):
         return dcop, [dcop.variables[vname(i)] for i in range(len(case["vars"]))]
     dcop = DCOP("t", case["mode"])
     vs = []
+    forms = case.get("domforms") or []
     for i, v in enumerate(case["vars"]):
-        dom = Domain("d%02d" % i, "d", list(v["dom"]))
+        form = forms[i] if i < len(forms) else None
+        # form None: a Domain object; otherwise the raw iterable goes to the Variable constructor, which builds
+        # the Domain itself
+        dom = Domain("d%02d" % i, "d", list(v["dom"])) if form is None else raw_domain(form, v["dom"])
         if v.get("costs") is None and via != "costfunc":
             var = Variable(vname(i), dom, v.get("init"))
         elif via == "costfunc":
@@ -101,6 +138,8 @@ def build_dcop(case):
             var = VariableWithCostDict(vname(i), dom, dict(zip(v["dom"], v["costs"])), v.get("init"))
         vs.append(var)
         dcop.add_variable(var)
+    if forms and not all(same_values(var.domain.values, v["dom"]) for var, v in zip(vs, case["vars"])):
+        raise DomainMismatch([[canon(x) for x in var.domain.values] for var in vs])
     for k, c in enumerate(case["cons"]):
         sc = [vs[i] for i in c["scope"]]
         shape = [len(v.domain) for v in sc]
@@ -241,6 +280,9 @@ def run_case(case):
     numpy.random.seed(seed % (2 ** 32))
     try:
         dcop, vs, mod, comps = build_computations(case)
+    except DomainMismatch as e:
+        return dict(rejected=False, dom_mismatch=e.observed, domvals=e.observed, calls=[], events=[], raises=[], final={},
+                    draws=[], model=None, nsched=0, sched=[], varcomps=[], comps=[])
     except ValueError as e:
         if case.get("badinit") and ("initial value" in str(e).lower()):
             # the library refused to declare a variable with an initial value outside its domain
@@ -471,4 +513,5 @@ def run_case(case):
         graph = {n: [sorted(r.name for r in c.constraints), sorted(c.neighbors)] for n, c in sorted(varcomps.items())}
     return dict(calls=calls, events=events, raises=raises, final=final, draws=orc.draws, model=model,
                 nsched=len(drv.schedule), sched=drv.schedule, varcomps=sorted(varcomps),
-                comps=sorted(comps), dba_graph=graph)
+                comps=sorted(comps), dba_graph=graph,
+                domvals=[[canon(x) for x in v.domain.values] for v in vs])
